@@ -36,6 +36,7 @@ CONSTANTS Names,     \* breaker names
           Q,         \* ticks per bucket            (1 tick = 62.5 ms when Q = 4)
           K2,        \* 2*k                         (code: k = 1.5 -> 3)
           Prot,      \* protection                  (code: 5)
+          GrpcUnwraps, \* BOOLEAN: status.Code of the grpc library in use looks through %w wrapping
           Kinds      \* the call kinds offered by Next (subset of AllKinds)
 
 VARIABLES st,        \* [Names -> [mode, phase, win]]
@@ -49,19 +50,68 @@ core == <<st>>
 Kd(api, oc, n) == [api |-> api, oc |-> oc, n |-> n]
 
 \* the core API: Do / DoWithAcceptable / DoWithFallback / DoWithFallbackAcceptable / Allow+promise
-\* oc: ok = nil error, acc = error the caller's predicate accepts, err = error it does not
-\* accept (for do/dofb the predicate is "err == nil"), panic; accept/reject = promise calls.
-CoreKindsSucc == <<Kd("do", "ok", 0), Kd("doacc", "ok", 0), Kd("doacc", "acc", 0), Kd("dofb", "ok", 0),
-                   Kd("dofbacc", "ok", 0), Kd("dofbacc", "acc", 0), Kd("allow", "accept", 0)>>
-CoreKindsFail == <<Kd("do", "err", 0), Kd("do", "panic", 0), Kd("doacc", "err", 0), Kd("doacc", "panic", 0),
-                   Kd("dofb", "err", 0), Kd("dofb", "panic", 0), Kd("dofbacc", "err", 0),
-                   Kd("dofbacc", "panic", 0), Kd("allow", "reject", 0)>>
+\* oc: what the protected function does: ok = returns nil, acc / err = returns one of two distinct
+\* errors, panic; accept/reject = promise calls.
+\* n : the caller's acceptable-predicate, as the set of the three possible results it accepts
+\*     (bit 1 = accepts nil, bit 2 = accepts the error "acc", bit 4 = accepts the error "err"):
+\*     an arbitrary predicate over the results that can occur.  3 = "nil or the error acc" (the
+\*     usual shape), 7 = accepts everything, 0 = nothing, 2 = one specific error and NOT nil,
+\*     6 = any error but not nil (api/httpc hands the breaker a predicate that rejects nil when the
+\*     response is a 5xx).  Do / DoWithFallback take no predicate: theirs is "err == nil" (n unused).
+\*     "success iff its error satisfies the caller's acceptable-predicate": nothing else decides,
+\*     in particular not whether the error is nil.  A panic never reaches the predicate: failure.
+PredBit(oc) == CASE oc = "ok" -> 1 [] oc = "acc" -> 2 [] oc = "err" -> 4 [] OTHER -> 0
+PredOf(k) == IF k.api \in {"do", "dofb"} THEN 1 ELSE k.n
+Accepts(mask, oc) == PredBit(oc) # 0 /\ (mask \div PredBit(oc)) % 2 = 1
+CoreEffect(k) ==
+  IF k.api = "allow" THEN (IF k.oc = "accept" THEN 1 ELSE 0)
+  ELSE IF Accepts(PredOf(k), k.oc) THEN 1 ELSE 0
+
 SeqRange(f) == {f[i] : i \in DOMAIN f}
+
+\* every (predicate, result) of the two forms that take a predicate (64 kinds; the registry forms
+\* breaker.DoWithAcceptable(name, ..) / DoWithFallbackAcceptable(name, ..) are the same kinds issued
+\* through the registry: the driver alternates)
+PredApis == <<"doacc", "dofbacc">>
+PredOcs  == <<"ok", "acc", "err", "panic">>
+AllPredKinds == [i \in 1..64 |-> Kd(PredApis[((i - 1) % 2) + 1], PredOcs[(((i - 1) \div 2) % 4) + 1], (i - 1) \div 8)]
+PredKindsSucc == SelectSeq(AllPredKinds, LAMBDA k : CoreEffect(k) = 1)
+PredKindsFail == SelectSeq(AllPredKinds, LAMBDA k : CoreEffect(k) = 0)
+
+\* the kind sequences the generator rotates through: the usual shapes first, then every other predicate
+BaseKindsSucc == <<Kd("do", "ok", 0), Kd("doacc", "ok", 3), Kd("doacc", "acc", 3), Kd("dofb", "ok", 0),
+                   Kd("dofbacc", "ok", 3), Kd("dofbacc", "acc", 3), Kd("allow", "accept", 0)>>
+BaseKindsFail == <<Kd("do", "err", 0), Kd("do", "panic", 0), Kd("doacc", "err", 3), Kd("doacc", "panic", 3),
+                   Kd("dofb", "err", 0), Kd("dofb", "panic", 0), Kd("dofbacc", "err", 3),
+                   Kd("dofbacc", "panic", 3), Kd("allow", "reject", 0), Kd("do", "acc", 0), Kd("dofb", "acc", 0)>>
+CoreKindsSucc == BaseKindsSucc \o SelectSeq(PredKindsSucc, LAMBDA k : k.n # 3)
+CoreKindsFail == BaseKindsFail \o SelectSeq(PredKindsFail, LAMBDA k : k.n # 3)
 CoreKinds == SeqRange(CoreKindsSucc) \cup SeqRange(CoreKindsFail)
 
 \* gRPC status codes the statement does NOT declare benign
 GrpcBad == {4, 12, 13, 14, 15}   \* DeadlineExceeded, Unimplemented, Internal, Unavailable, DataLoss
 GrpcApis == {"grpc_codes", "grpc_client", "grpc_unary", "grpc_stream"}
+GrpcNames == <<"OK", "Canceled", "Unknown", "InvalidArgument", "DeadlineExceeded", "NotFound", "AlreadyExists",
+               "PermissionDenied", "ResourceExhausted", "FailedPrecondition", "Aborted", "OutOfRange", "Unimplemented",
+               "Internal", "Unavailable", "DataLoss", "Unauthenticated">>
+\* What a handler / invoker returns is an error VALUE; its gRPC code is the one grpc's
+\* status.Code / status.Convert assigns to it.  For the gRPC rows  n = 100 * kind + c :
+\*   kind 0  status.Error(c, ..)  (c = 0: nil)                         code c
+\*   kind 1  fmt.Errorf("..%w", status.Error(c, ..))                   code c if the grpc library in
+\*           use unwraps (GrpcUnwraps, a fact of the library version: >= 1.55), else Unknown
+\*   kind 2  a plain Go error (errors.New)                              Unknown
+\*   kind 3  context.Canceled, as the plain error it is                 Unknown
+\*   kind 4  context.DeadlineExceeded, as the plain error it is         Unknown
+\*   kind 5  a foreign error type with a GRPCStatus() method of code c  code c
+\* Unknown is not one of the five codes: a service that only returns business errors (plain Go
+\* errors) is never cut off.  The drivers refuse (harness error) to run a row for which the grpc
+\* library they are linked with assigns another code than this table.
+GrpcCode(n) ==
+  LET kind == n \div 100
+      c == n % 100
+  IN CASE kind \in {0, 5} -> c
+       [] kind = 1       -> IF GrpcUnwraps THEN c ELSE 2
+       [] OTHER          -> 2
 \* sqlx operations x connection flavour: plain (NewConn/NewConnFromDB), "@mysql" (the accept option
 \* every NewMySQL connection carries), "@custom" (a user-supplied accept option that accepts
 \* nothing extra).  An accept option may only ADD acceptable errors: the statement's benign
@@ -75,15 +125,20 @@ RedisBenign == {"nil", "rednil", "canceled"}
 \* 1 = the statement counts the outcome as success / benign, 0 = failure
 Effect(k) ==
   CASE k.api = "http"        -> IF k.n < 500 THEN 1 ELSE 0
-    [] k.api \in GrpcApis    -> IF k.n \in GrpcBad THEN 0 ELSE 1
+    [] k.api = "httpc"       -> IF k.oc = "refused" THEN 0 ELSE IF k.n < 500 THEN 1 ELSE 0
+    [] k.api \in GrpcApis    -> IF GrpcCode(k.n) \in GrpcBad THEN 0 ELSE 1
     [] k.api \in SqlApis     -> IF k.oc \in SqlBenign THEN 1 ELSE 0
     [] k.api = "redis"       -> IF k.oc \in RedisBenign THEN 1 ELSE 0
-    [] OTHER                 -> IF k \in SeqRange(CoreKindsSucc) THEN 1 ELSE 0
+    [] OTHER                 -> CoreEffect(k)
 
 HasFallback(k) == k.api \in {"dofb", "dofbacc"}
 
 \* what the caller gets back from an admitted / a rejected call
-RetAdmitted(k) == IF k.api = "allow" THEN "nil" ELSE k.oc
+\* (gRPC rows: the error comes back unchanged; the drivers label it with the code grpc assigns)
+RetAdmitted(k) ==
+  CASE k.api = "allow"     -> "nil"
+    [] k.api \in GrpcApis  -> GrpcNames[GrpcCode(k.n) + 1]
+    [] OTHER               -> k.oc
 RetRejected(k) == IF HasFallback(k) THEN "fb" ELSE "unavail"
 
 (* ---------------------------------------------------------------- windows *)
